@@ -924,6 +924,13 @@ impl<const N: usize> SubscriptionsInner<N> {
 
     /// Remove entries that every subscription has already reported on.
     fn purge_reported_changes(&mut self) {
+        if self.subscriptions_count != self.subscriptions.len() {
+            // A subscription is in flight (being primed or reported on) and its
+            // watermark is not visible here; purging now could drop changes it
+            // has not seen yet.
+            return;
+        }
+
         if let Some(min_seen_attr_change_id) = self
             .subscriptions
             .iter()
